@@ -1601,8 +1601,17 @@ impl<'s> Runner<'s> {
                             tls(|t| t.verifier_log.clear());
                         }
                         if !o.is_ok() {
-                            // stop repeating: the call below is judged like any other load (an
-                            // implementation may refuse what the verifier accepts, if a fresh VM does too)
+                            if !o.is_err() {
+                                return Err(self.c10("history-dependent-panic-or-crash/set_program".into(), at, format!("the {}th identical set_program(prog#{}) in a row -> {}", k, pid, o.short())));
+                            }
+                            // an implementation may refuse what the verifier accepts - if a fresh VM
+                            // with the same verifier and calculator refuses it too
+                            tls(|t| t.verifier_log.clear());
+                            let fresh_loads = self.fresh_load_outcome(*pid, m.verifier, m.calc, (*doff, *eoff))?;
+                            tls(|t| t.verifier_log.clear());
+                            if fresh_loads.is_ok() {
+                                return Err(self.c10("history-dependent-result/set_program".into(), at, format!("the {}th identical set_program(prog#{}) in a row returned {} (a fresh VM loads the program)", k, pid, o.short())));
+                            }
                             self.counters.inc("set_program_repetition_cut_short");
                             break;
                         }
